@@ -297,11 +297,24 @@ class ThreeQubitDiagonalGate(raw_types.Gate):
         """
 
         a, b, c = qubits
+        # The diagonal is not symmetric in the qubits: when they are relabelled to respect
+        # adjacency, the angles are permuted along with them.
+        perm = (0, 1, 2)
         if hasattr(b, 'is_adjacent'):
             if not b.is_adjacent(a):
                 b, c = c, b
+                perm = (0, 2, 1)
             elif not b.is_adjacent(c):
                 a, b = b, a
+                perm = (1, 0, 2)
+        diag_angles_radians = []
+        for i in range(8):
+            bits = [0, 0, 0]
+            for j in range(3):
+                bits[perm[j]] = (i >> (2 - j)) & 1
+            diag_angles_radians.append(
+                self._diag_angles_radians[4 * bits[0] + 2 * bits[1] + bits[2]]
+            )
         sweep_abc = [common_gates.CNOT(a, b), common_gates.CNOT(b, c)]
         phase_matrix_inverse = 0.25 * np.array(
             [
@@ -314,12 +327,10 @@ class ThreeQubitDiagonalGate(raw_types.Gate):
                 [1, 1, -1, -1, 1, 1, -1],
             ]
         )
-        shifted_angles_tail = [
-            angle - self._diag_angles_radians[0] for angle in self._diag_angles_radians[1:]
-        ]
+        shifted_angles_tail = [angle - diag_angles_radians[0] for angle in diag_angles_radians[1:]]
         phase_solutions = phase_matrix_inverse.dot(shifted_angles_tail)
         p_gates = [pauli_gates.Z ** (solution / np.pi) for solution in phase_solutions]
-        global_phase = 1j ** (2 * self._diag_angles_radians[0] / np.pi)
+        global_phase = 1j ** (2 * diag_angles_radians[0] / np.pi)
         global_phase_operation = (
             [global_phase_op.global_phase_operation(global_phase)]
             if protocols.is_parameterized(global_phase) or abs(global_phase - 1.0) > 0
